@@ -826,6 +826,10 @@ func (gen *Generator) GenerateAssignment(expr *SexpPair, assignPos int) error {
 		if err != nil {
 			return err
 		}
+		if i < len(rhs)-1 {
+			// the form as a whole leaves one value, that of its last assignment
+			gen.AddInstruction(PopInstr(0))
+		}
 	}
 	return nil
 }
